@@ -57,9 +57,40 @@ func goEnv() []string {
 	return env
 }
 
+// altTree: VERIF_ALT_REPO=<dir> evaluates a scratch copy of the library instead of /repo (used only to try
+// seeded changes while /repo is busy); binaries, work files, evidence and replays then live under work/alt-<tag>/
+// so that nothing of the registered state is touched.
+func altTree() (dir, tag string) {
+	dir = os.Getenv("VERIF_ALT_REPO")
+	if dir == "" {
+		return "", ""
+	}
+	h := sha256.Sum256([]byte(dir))
+	return dir, hex.EncodeToString(h[:4])
+}
+
+func outRoot() string {
+	if _, tag := altTree(); tag != "" {
+		return filepath.Join(Root, "work", "alt-"+tag)
+	}
+	return Root
+}
+
 func buildChild(race bool) (string, error) {
-	out := filepath.Join(Root, "bin", "vchild")
+	out := filepath.Join(outRoot(), "bin", "vchild")
+	os.MkdirAll(filepath.Dir(out), 0o755)
 	args := []string{"build", "-tags", "verif"}
+	if dir, _ := altTree(); dir != "" {
+		gm, err := os.ReadFile(filepath.Join(Root, "go.mod"))
+		if err != nil {
+			return "", err
+		}
+		mf := filepath.Join(outRoot(), "go.mod")
+		os.WriteFile(mf, []byte(strings.Replace(string(gm), "=> /repo", "=> "+dir, 1)), 0o644)
+		gs, _ := os.ReadFile(filepath.Join(Root, "go.sum"))
+		os.WriteFile(filepath.Join(outRoot(), "go.sum"), gs, 0o644)
+		args = append(args, "-modfile="+mf)
+	}
 	if race {
 		out += "-race"
 		args = append(args, "-race")
@@ -158,7 +189,7 @@ func SuperMain(args []string) int {
 		fmt.Fprintln(os.Stderr, err)
 		return 2
 	}
-	work := filepath.Join(Root, "work", id)
+	work := filepath.Join(outRoot(), "work", id)
 	os.RemoveAll(work)
 	os.MkdirAll(work, 0o755)
 	common := []string{"child", "-check", id, "-tier", tier, "-seed", strconv.FormatInt(seed, 10)}
@@ -386,7 +417,7 @@ func SuperMain(args []string) int {
 	seenKnown := map[string]bool{}
 	seenNew := map[string]bool{}
 	newCount := 0
-	os.MkdirAll(filepath.Join(Root, "replays", id), 0o755)
+	os.MkdirAll(filepath.Join(outRoot(), "replays", id), 0o755)
 	for _, v := range viols {
 		matched := false
 		for _, k := range known {
@@ -408,7 +439,7 @@ func SuperMain(args []string) int {
 		seenNew[v.Key] = true
 		newCount++
 		h := sha256.Sum256([]byte(v.Key))
-		rp := filepath.Join(Root, "replays", id, hex.EncodeToString(h[:6])+".json")
+		rp := filepath.Join(outRoot(), "replays", id, hex.EncodeToString(h[:6])+".json")
 		rb, _ := json.MarshalIndent(map[string]any{"property": id, "key": v.Key, "case": v.Case, "seed": seed, "tier": tier, "detail": v.Detail}, "", " ")
 		os.WriteFile(rp, rb, 0o644)
 		d := v.Detail
@@ -472,8 +503,8 @@ func SuperMain(args []string) int {
 		"violations":  newCount,
 	}
 	eb, _ := json.MarshalIndent(ev, "", " ")
-	os.MkdirAll(filepath.Join(Root, "evidence"), 0o755)
-	os.WriteFile(filepath.Join(Root, "evidence", id+".json"), eb, 0o644)
+	os.MkdirAll(filepath.Join(outRoot(), "evidence"), 0o755)
+	os.WriteFile(filepath.Join(outRoot(), "evidence", id+".json"), eb, 0o644)
 
 	fmt.Printf("SUMMARY property=%s tier=%s seed=%d cases=%d/%d evaluations=%d distinct_nontrivial=%d new_violations=%d known=%d inconclusive=%d deaths=%d wall=%.1fs\n",
 		id, tier, seed, ran, total, evals, len(distinct), newCount, len(seenKnown), len(inconclusive), deaths, time.Since(start).Seconds())
